@@ -20,6 +20,7 @@ type Report struct {
 	t0       time.Time
 	Reruns   int
 	Unstable []string
+	NoEvidence bool
 }
 
 type knownFinding struct {
@@ -54,6 +55,9 @@ func loadKnown(verif string) (finds []knownFinding, fixed []string) {
 }
 
 func (r *Report) writeEvidence(ev map[string]interface{}) {
+	if r.NoEvidence {
+		return
+	}
 	os.MkdirAll(filepath.Join(r.Verif, "evidence"), 0o755)
 	data, _ := json.MarshalIndent(ev, "", " ")
 	os.WriteFile(filepath.Join(r.Verif, "evidence", r.Prop+".json"), append(data, '\n'), 0o644)
@@ -121,6 +125,9 @@ func (r *Report) finish(e *Engine, units []*UnitResult, obls []*Obligation, verb
 	violations := 0
 	var lines []string
 	replayDir := filepath.Join(r.Verif, "replays", r.Prop)
+	if r.NoEvidence {
+		replayDir = filepath.Join(os.TempDir(), fmt.Sprintf("govc-replays-%d", os.Getpid()), r.Prop)
+	}
 	os.RemoveAll(replayDir)
 	report := func(name, desc, pos, status, output, query string) {
 		// known finding?
